@@ -313,9 +313,14 @@ class Lexer(ITokenizer):
 			if index == -1:
 				break
 
-			prev = max(end, index - 1)
+			body_begin = end
 			end = index + len(pair['close'])
-			if not (source[prev] == '\\'):
+			# 直前に連続するバックスラッシュが偶数個の場合は、引用符自体はエスケープされていない
+			backslashes = 0
+			while index - backslashes - 1 >= body_begin and source[index - backslashes - 1] == '\\':
+				backslashes += 1
+
+			if backslashes % 2 == 0:
 				break
 
 		value = source[begin:end]
